@@ -1386,6 +1386,17 @@ func (r *Restore) PeeringSecrets(p *pbpeering.PeeringSecrets) error {
 		return fmt.Errorf("failed restoring peering secrets: %w", err)
 	}
 
+	// A dialing peer stores a stream secret that the other cluster generated;
+	// peeringSecretsWriteTxn does not track it as in use here, so neither must
+	// the restore. (Peerings are restored before their secrets.)
+	peering, err := peeringReadByIDTxn(r.tx, nil, p.PeerID)
+	if err != nil {
+		return fmt.Errorf("failed to read peering by id: %w", err)
+	}
+	if peering != nil && peering.ShouldDial() {
+		return nil
+	}
+
 	var uuids []string
 	if establishment := p.GetEstablishment().GetSecretID(); establishment != "" {
 		uuids = append(uuids, establishment)
